@@ -179,9 +179,9 @@ func c12(cx *Ctx, r *ev.Report) {
 	r.Analysed["discharged_by_rule"] = byRule
 	r.Analysed["functions_examined"] = len(fns)
 	r.Analysed["device_accessors_examined"] = devMethods
-	r.AddFloor("panic_sites", len(sites), 400)
-	r.AddFloor("slice_index_sites", byKind["index"], 6)
-	r.AddFloor("nil_invoke_sites", byKind["nil-invoke"], 100)
+	r.AddFloor("panic_sites", len(sites), 50)
+	r.AddFloor("slice_index_sites", byKind["index"], 1)
+	r.AddFloor("nil_invoke_sites", byKind["nil-invoke"], 10)
 
 	// 3. any request: empty data in modes 0 and 2, any IM, any type
 	sa := cx.stepAnalysis()
